@@ -149,7 +149,10 @@ def table_evidence():
     writes = sorted({(fn, loc, held) for fn, loc, rw, held in fp if rw == "W"})
     allowed = {(fn, loc, held) for fn, loc, held, _ in allow}
     for w in writes:
-        if w not in allowed:
+        if w not in allowed and w[1].startswith("escape:"):
+            findings.append("read accessor %s returns the slice/map stored in %s itself, not a copy: a caller that modifies its "
+                            "own result modifies the shared processed set" % (w[0], w[1][7:]))
+        elif w not in allowed:
             findings.append("write site on a read path not in the allow-list: %s writes %s holding %s" % (w[0], w[1], list(w[2]) or "nothing"))
     for a in sorted(allowed - set(writes)):
         findings.append("allow-list entry not found in the table any more: %s / %s holding %s" % (a[0], a[1], list(a[2]) or "nothing"))
@@ -271,9 +274,13 @@ def run(res, tier, seed, proof):
              "6 groups of /repo testdata) and its canonical dump must equal the sequential dump; readers = on one freshly processed "
              "set all goroutines start with first-time namespace->module lookups, then random read-API calls (ToEntry cache hit, Find "
              "absolute/prefixed/relative of existing nodes, Namespace, InstantiatingModule, FindModuleByNamespace, ReadOnly, "
-             "DefaultValues, GetErrors, Print), every answer compared with the sequential one; errsets = 7 independent sets that "
+             "DefaultValues, GetErrors, Print, enum Names/Values/NameMap/ValueMap), every answer compared with the answer of a "
+             "separately processed twin set queried sequentially; every slice/map an accessor returns is overwritten and sorted by "
+             "the caller (it is the caller's own), the early operations are simultaneous first-time prints of whole modules; errsets = 13 independent sets that "
              "contain the same error-producing constructs (malformed posix-patterns, bad range, unknown type, bad typedef) at "
-             "file names and positions of their own are processed one after the other in random orders and 8 at a time in "
+             "file names and positions of their own, 3 sets whose load is rejected in the middle of a statement and 3 sets with a "
+             "statement lacking a required substatement, at nesting depths 0..2: all at "
+             "their own places, are processed one after the other in random orders and 8 at a time in "
              "parallel, and each set's full error list (positions included) must equal what a FRESH PROCESS handling only that "
              "set prints (child process `harness race errdump k 0`): results may not depend on what was processed before or "
              "alongside.  All of them are non-trivial "
